@@ -5,11 +5,12 @@
     probe task sized to the whole pilot must be granted; while holders exist the C01 invariant is
     re-checked at each grant (this module reports both).
 (c) NodeList.release_slots against the occupancy model.
-(b) the executor half (exactly one unschedule per accepted task) is decided by the C07 engine.
+(b) executor half: C07's engine (real Popen executor under the deterministic scheduler), here judged
+    for "exactly one unschedule publication per accepted task, whatever way it ends".
 """
 from . import boot                                    # noqa: F401
 from .runner import CaseResult, Part
-from . import schedsim, schedgen, nodelistsim
+from . import schedsim, schedgen, nodelistsim, execsim, c07
 
 PID  = 'C03'
 RULE = ('scheduler-pair histories with releases in generated order incl. application-placed tasks; '
@@ -20,9 +21,11 @@ RULE = ('scheduler-pair histories with releases in generated order incl. applica
         'task; nodelist: >=2 releases')
 ASSUMPTIONS = ['see C01 (same engine)',
                'the unschedule message carries the task dict the executor received (as the executor publishes it)']
-NOT_REACHED = ['executor side of the statement (exactly-once release for every way a task ends) is '
-               'checked by C07\'s engine and reported there']
-normalise = schedgen.normalise
+NOT_REACHED = ['real process signals; Flux / Dragon executors']
+def normalise(case):
+    if case.get('kind') in ('sched', 'sweep', 'dfs'):
+        return c07.normalise(case)
+    return schedgen.normalise(case)
 BUDGET = {'quick': 100, 'thorough': 1500}
 
 
@@ -31,10 +34,28 @@ def parts(tier):
         Part('continuous', schedgen.histories(max_ops=40), quick=200, thorough=1500),
         Part('jsrun', schedgen.histories(max_ops=25, cls='jsrun', app=False), quick=40, thorough=300),
         Part('nodelist', nodelistsim.nl_cases(), quick=250, thorough=2500),
+        # (b) executor half: every accepted task asks for its release exactly once, whatever
+        # way it ends (C07's engine, C03 clauses of its oracle)
+        Part('executor', c07.schedules(), quick=150, thorough=1200),
+        Part('executor_sweep', enum=c07.sweep_cases),
     ]
 
 
 def run_case(case):
+    if case.get('kind') in ('sched', 'sweep', 'dfs'):
+        sim = execsim.run_schedule(case)
+        res = CaseResult()
+        seen = set()
+        for p, sig, msg in sim.problems:
+            if p == PID and (sig, msg) not in seen:
+                seen.add((sig, msg))
+                res.fail('executor:' + sig, msg)
+        endings = set(sim.ending(u) for u in sim.order if u in sim.accepted)
+        res.nontrivial = bool(endings - {'exit_zero', 'exit_nonzero'}) and sim.coincide >= 1
+        res.label('executor')
+        for e in endings:
+            res.label('executor:ending=%s' % e)
+        return res
     if case.get('kind') == 'nodelist':
         P, s = nodelistsim.run_nodelist(case)
         res = CaseResult()
